@@ -177,14 +177,24 @@ pub fn render_wsca(words: &[String], f: &Fmt, r: &mut Rng) -> String {
     let mut lines: Vec<String> = Vec::new();
     for w in words {
         if w.is_empty() {
-            // a blank line or a comment-only line: both mean "no word here"
+            // a blank line, a line of blanks, or a comment-only line (indented or not): all mean
+            // "no word here"
             if f.word_comments && r.chance(1, 2) {
-                lines.push("# section".to_string());
+                lines.push((*r.pick(&["# section", "   # indented note", "#", "# a #2 note"])).to_string());
+            } else if r.chance(1, 6) {
+                lines.push("   ".to_string());
             } else {
                 lines.push(String::new());
             }
         } else if f.word_comments && r.chance(1, 4) {
-            lines.push(format!("{w} # gloss {}", r.below(100)));
+            // trailing comments: with a space, a tab, nothing, or a second `#` inside
+            let c = match r.below(5) {
+                0 => format!("{w}#gloss"),
+                1 => format!("{w}\t# gloss"),
+                2 => format!("{w} # a #{} gloss", r.below(9)),
+                _ => format!("{w} # gloss {}", r.below(100)),
+            };
+            lines.push(c);
         } else if r.chance(1, 10) {
             lines.push(format!("  {w}  "));
         } else {
@@ -210,7 +220,7 @@ pub fn render_alias(into: &[String], from: &[String], f: &Fmt, blank_lines: bool
         s.push_str(header);
         s.push_str(nl);
         for (i, l) in lines.iter().enumerate() {
-            if i > 0 && r.chance(1, 6) {
+            if r.chance(1, 6) {
                 s.push_str(f.indent);
                 s.push_str("# note");
                 s.push_str(nl);
@@ -244,8 +254,8 @@ pub fn render_alias(into: &[String], from: &[String], f: &Fmt, blank_lines: bool
 
 // ------------------------------------------------------------------ models
 
-const NAMES: [&str; 23] = [
-    "Þ Fortition", "Ümlaut II", "Éclipsis", "1st shift", "*special", "a  b", "Voice (early)", "Grimms Law", "Verners Law", "Voice", "Raise", "Glottal Deletion", "Cluster Simplification", "Hap(lo)logy", "Low Vowel Reduction", "Stress Shift",
+const NAMES: [&str; 25] = [
+    "Shift #2", "a: b", "Þ Fortition", "Ümlaut II", "Éclipsis", "1st shift", "*special", "a  b", "Voice (early)", "Grimms Law", "Verners Law", "Voice", "Raise", "Glottal Deletion", "Cluster Simplification", "Hap(lo)logy", "Low Vowel Reduction", "Stress Shift",
     "Umlaut", "final-devoicing", "Palatalisation 2", "Lenition", "a-mutation", "Syncope", "Nasal Assimilation",
 ];
 const DESCS: [&str; 8] = [
@@ -649,7 +659,22 @@ pub fn gen_scn(d: &Data, r: &mut Rng, faulty: bool) -> Scn {
         // the user edits the word list or the rules between two invocations
         let at = r.range(1, invs.len() - 1);
         let cmd = if r.chance(1, 2) {
-            let words = gen_words(d, r);
+            // a new list, or the old one with a word added at / removed from the end
+            let words = match r.below(3) {
+                0 => gen_words(d, r),
+                1 => {
+                    let mut w = m.words.clone();
+                    w.push(safe_word(d, r));
+                    w
+                }
+                _ => {
+                    let mut w = m.words.clone();
+                    if w.len() > 1 {
+                        w.pop();
+                    }
+                    w
+                }
+            };
             Cmd::Edit { path: ws.clone(), text: render_wsca(&words, &fmt, r), meaning: Meaning::Words(words) }
         } else {
             let mut groups = gen_groups(d, r, 3, false);
